@@ -228,11 +228,44 @@ def worker(job):
                 else:
                     part.count('truncation_dont_care')
 
+    def check_stall(r, replay_base):
+        '''The peer stops sending in the middle of the message and stays silent: the client's read timeout ends the exchange,
+        which must be reported as an error whatever the framing (also for a body that is delimited by the connection's end).'''
+        wire = r['wire']
+        body_points = [p for p in r['boundaries'] if p > r['head_len']] or [len(wire) - 1]
+        p = rng.choice(body_points + [len(wire) - 1])
+        if not 0 < p < len(wire) and r['then'] != 'eof':
+            return
+        p = max(1, min(p, len(wire) - (0 if r['then'] == 'eof' else 1)))
+        responses = [{'pieces': [wire[:p]], 'then': 'hang', 'method': r['method']}]
+        outcomes, peer, net = httpdrive.run_sequence(responses, read_timeout=0.15)
+        o = outcomes[0]
+        part.evaluations += 1
+        part.count('stall_runs')
+        fkey = r['classes']['framing']
+        replay = dict(replay_base, stalled_at=p)
+        part.nontrivial_case('stall/{}/{}'.format(fkey, r['classes']['coding']))
+        ref = refhttp.decode(wire[:p], r['method'], eof=False)
+        if ref['state'] == 'complete' and r['then'] != 'eof':
+            part.count('stall_after_complete_message')
+            return
+        if o['error'] is None:
+            part.violation('silent-peer-accepted-as-end-of-message/' + fkey,
+                           {'sent': p, 'of': len(wire), 'got_body_len': len(o['body']), 'classes': r['classes']}, replay)
+        elif o['error'] == 'STALL':
+            part.violation('read-timeout-never-fired/' + fkey, {'sent': p}, replay)
+        elif not errors_ok(o):
+            part.violation('stall-wrong-error/{}/{}'.format(fkey, o['error']), {'error': o.get('error_text')}, replay)
+        else:
+            part.count('stall_reported_as_error')
+
     if 'replay' in job:
         rp = common.unjson(job['replay'])
         seq = rp['seq']
         mode['ignore_length'] = bool(rp.get('ignore_length'))
-        if 'truncated_at' in rp:
+        if 'stalled_at' in rp:
+            check_stall(seq[0], {'seq': seq})
+        elif 'truncated_at' in rp:
             check_truncations(seq[0], {'seq': seq})
         else:
             check_sequence(seq, {'seq': seq})
@@ -278,6 +311,9 @@ def worker(job):
         # truncations of a single response
         r = httpgen.gen_response(rng, allow=['length', 'chunked', 'close', 'te+cl', 'overrun'])
         check_truncations(r, {'seq': [r]})
+        if n % 4 == 0:
+            r = httpgen.gen_response(rng, allow=['length', 'chunked', 'close', 'close', 'close'])
+            check_stall(r, {'seq': [r]})
     return part.dump()
 
 
